@@ -1135,7 +1135,9 @@ def completed_op(rng, depth=3, h0=None, epr_hw=None):
         if k == "foreach":
             return {"k": "foreach", "arr": rng.randrange(3), "idx": rng.random() < 0.5, "body": body}
         if k == "until":
-            return {"k": "until", "n": 2, "body": body, "ef": {"f": fut()}, "ev": rng.choice([0, 1]),
+            # exit condition: an array Future, or (a RegFuture is not a temporary) the loop_until's own counter
+            ef = {"h": myh} if myh is not None and rng.random() < 0.3 else {"f": fut()}
+            return {"k": "until", "n": 2, "body": body, "ef": ef, "ev": rng.choice([0, 1]),
                     "cl": [leaf()] if rng.random() < 0.4 else []}
         return {"k": "try", "n": 1, "body": body}
 
@@ -1271,6 +1273,88 @@ def live_across_flushes(rng):
             if mode == "mixed" or seg >= 2:
                 for _ in range(rng.choice([1, 2])):
                     p.append(use())
+        p.append({"k": "flush"})
+    return p
+
+
+def regfuture_conditions(rng):
+    """A history whose exit / branch conditions are RegFutures: `loop_until` (and `if_*`) on a register from
+    `new_register()`, on the counter of an enclosing `loop_body` / of the `loop_until` itself, and on an M register
+    from `measure(store_array=False)`; each followed by operations that need temporaries and by uses of the
+    register.  A condition operand that is a RegFuture is NOT a temporary: closing the construct must leave it
+    active (and its value intact)."""
+    p = [{"k": "arr", "len": 2, "init": [0, 1]}, {"k": "arr", "len": 2, "init": [1, 1]},
+         {"k": "arr", "len": 2, "init": [2, 0]}]
+    nh = [0]
+    regs = []
+
+    def fut():  # array 0 is never written: its entries index other arrays
+        return {"a": rng.choice([1, 2]), "i": rng.randrange(2)}
+
+    def tmp_user():
+        return rng.choice([
+            {"k": "addf", "f": fut(), "o": {"f": fut()}, "m": rng.choice([None, 5])},
+            {"k": "addf", "f": {"a": 1, "f": {"a": 0, "i": 1}}, "o": {"v": 1}, "m": 3},
+            {"k": "if", "cb": True, "c": "ge", "a": {"f": fut()}, "b": {"v": 0},
+             "body": [{"k": "addf", "f": fut(), "o": {"v": 1}, "m": None}]}])
+
+    def cond_if(hh):
+        c = rng.choice(["ez", "nz", "eq", "ne", "lt", "ge"])
+        return {"k": "if", "cb": rng.random() < 0.5, "c": c, "a": {"h": hh},
+                "b": {"v": 0} if c in ("ez", "nz") else rng.choice([{"v": rng.randrange(6)}, {"f": fut()}]),
+                "body": [tmp_user()]}
+
+    def until_on(hh, body_extra=()):
+        """loop_until whose exit condition is the RegFuture `hh` (None: its own counter)"""
+        own = nh[0]
+        nh[0] += 1
+        body = [tmp_user()] + list(body_extra)
+        return {"k": "until", "n": rng.choice([1, 2, 3]), "body": body, "ef": {"h": own if hh is None else hh},
+                "ev": rng.randrange(0, 12), "cl": [tmp_user()] if rng.random() < 0.3 else []}
+
+    def construct(mh):
+        kinds = ["until-reg", "until-reg", "if-reg", "until-own", "lbody-counter", "lbody-counter"]
+        if mh is not None:
+            kinds += ["until-m", "if-m"]
+        k = rng.choice(kinds)
+        hh = rng.choice(regs)
+        if k == "until-reg":
+            extra = [{"k": "addr", "h": hh, "o": {"v": rng.randrange(1, 4)}, "m": None}] if rng.random() < 0.5 else []
+            return until_on(hh, extra)
+        if k == "if-reg":
+            return cond_if(hh)
+        if k == "until-own":
+            return until_on(None)
+        if k == "until-m":
+            return until_on(mh)
+        if k == "if-m":
+            return cond_if(mh)
+        # loop_body whose body branches / loops on the loop_body's counter
+        me = nh[0]
+        nh[0] += 1
+        inner = [until_on(me) if rng.random() < 0.7 else cond_if(me), tmp_user()]
+        if rng.random() < 0.4:  # a nested loop right after: it must not get the counter's register
+            nh[0] += 1
+            inner.append({"k": "loop", "s": 0, "e": 2, "d": 1, "body": [tmp_user()]})
+        return {"k": "lbody", "s": 0, "e": rng.choice([1, 2, 3]), "d": 1, "body": inner}
+
+    for seg in range(rng.choice([2, 3, 4])):
+        if seg == 0 or (len(regs) < 3 and rng.random() < 0.3):
+            for _ in range(rng.choice([1, 2])):
+                p.append({"k": "reg", "v": rng.randrange(3, 14)})
+                regs.append(nh[0])
+                nh[0] += 1
+        mh = None
+        if rng.random() < 0.4:
+            p.append({"k": "qop", "g": [rng.randrange(7)], "t": {"k": "reg"}})
+            mh = nh[0]
+            nh[0] += 1
+        for _ in range(rng.choice([1, 2, 3])):
+            p.append(construct(mh))
+            if rng.random() < 0.6:
+                p.append(tmp_user())
+            if rng.random() < 0.6:
+                p.append({"k": "addr", "h": rng.choice(regs), "o": {"v": rng.randrange(1, 4)}, "m": None})
         p.append({"k": "flush"})
     return p
 
